@@ -33,6 +33,7 @@ import KinModel.Lemmas.C05Nest
 import KinModel.StyleContent
 import KinModel.Gen.StyleCells
 import KinModel.Gen.DecoderFmt
+import KinModel.Gen.RequestLoops
 namespace KinModel.Style
 
 /-! ### primitive texts -/
@@ -1729,5 +1730,40 @@ example :
   rcases hp' with rfl | rfl
   · exact ⟨_, rfl, trivial, (by intro sp rq h; cases h), by decide, by decide, by decide⟩
   · exact ⟨_, rfl, trivial, (by intro sp rq h; cases h), by decide, by decide, by decide⟩
+
+/-! ### the regenerated table Gen.RequestLoops ties `visited` to ValidateRequest's source -/
+
+/-- every statement of the two parameter loops, every binding or write of a parameter list and every call that is
+handed one was read by the extractor -/
+theorem requestLoops_recognised : ∀ r ∈ Gen.requestLoops, r.ok = true := by decide
+
+/-- ValidateRequest's parameter loops are the ones the model was written against: the lists ranged over (the
+document's own, not copies or helper results), the two `continue` guards of loop 1, the one of loop 2, the argument
+order of GetByInAndName, the ValidateParameter calls -/
+theorem requestLoops_expected : Gen.requestLoops = expectedLoops := by decide
+
+/-- **tie**: the symbolic reading of the regenerated table is the model's `visited`, for every document and option set -/
+theorem requestLoops_visited :
+    ∃ f, visitedSem Gen.requestLoops = some f ∧ ∀ d o, f d o = visited d o := by
+  rw [requestLoops_expected]
+  refine ⟨_, rfl, ?_⟩
+  intro d o
+  simp only [visited]
+  congr 1
+  · apply List.filter_congr
+    intro p _
+    simp [pathItemKept, anyGuard]
+  · apply List.filter_congr
+    intro p _
+    simp [operationKept, anyGuard]
+
+/-- the reading refuses the shapes of the two seeded changes: GetByInAndName with its arguments exchanged, and a loop
+over a helper's result instead of the document's list -/
+theorem requestLoops_refuses :
+    visitedSem (expectedLoops.map (fun r => match r with
+      | .skipIf l (.overridden rv [a, b]) => .skipIf l (.overridden rv [b, a]) | r => r)) = none ∧
+    visitedSem (expectedLoops.map (fun r => match r with
+      | .range v "pathItemParameters" => .range v "parametersToValidate(pathItemParameters, options)" | r => r)) = none := by
+  constructor <;> rfl
 
 end KinModel.Style
